@@ -148,6 +148,18 @@ theorem remove_then_create_full (path : Path) (k : Kind) (w : W) (hc : w.s.close
 theorem add_reports_nothing (name : Path) (w : W) : (KqF.add name w).2.events = w.events ∧ (KqF.add name w).2.errors = w.errors :=
   add_silent name w
 
+/-- **a changed directory reports exactly new entries**: whatever the directory holds and whatever the
+environment answers (errors included: the loop may stop early), `dirChange` delivers nothing but Creates,
+each named `dir/entry` for an entry of the listing it read that had not been seen before — never for an
+entry that existed when the watch was added or was reported before (`watchDirectoryFiles` and earlier
+`dirChange`s marked those seen) — puts nothing on Errors and forgets nothing it has seen -/
+theorem dir_change_reports_only_new (d : Path) (w : W) (hc : w.s.closed = false) :
+    (KqF.dirChange d w).2.errors = w.errors ∧ (∀ p, p ∈ w.s.seen → p ∈ (KqF.dirChange d w).2.s.seen) ∧
+    ∃ (cs : List Path) (files : List (Path × Except FsErr Kind)),
+      (KqF.dirChange d w).2.events = w.events ++ cs.map (fun p => (⟨p, Create⟩ : Ev)) ∧
+      ∀ p, p ∈ cs → (∃ f, f ∈ files ∧ p = join d f.1) ∧ p ∉ w.s.seen :=
+  dirChange_creates d w hc
+
 /-- an internal watch never follows a link: it is registered under the (clean) name of the directory entry -/
 theorem internal_watch_name (fuel : Nat) (path : Path) (k : Kind) (w : W) (r : Path)
     (h : (internalWatch (addWatch fuel) path k w).1 = .ok r) : r = [] ∨ r = clean path := by
